@@ -225,15 +225,43 @@ def _generator(ctx):
     c = rec[0]
     lev = [x for x in ra.events if x.kind == "loop" and x.data.get("lid") == c.loops[-1]][0]
     cur = lev.data["elem"]
-    ok = A2.eq(arg(c, 0), A2.spec("i + 1", {"i": ra.params["index"]})) and \
-        A2.eq(arg(c, 1), A2.spec("m - abs(v)", {"m": ra.params["max_val"], "v": cur, "abs": glob("builtins.abs")}))
-    ctx.ob("R09.4", ra.func, c.node, ok, "the recursion continues with index + 1 and budget max_val - |current value|",
-           construct="L1 budget recursion")
+    # the remaining L1 budget r of this activation is whatever bounds the free coordinate: values range over
+    # range(-r or 0, r + 1).  It may be a parameter (remaining budget) or computed from one (total - used).
+    from ..alg import Rat, rat_subst
+    rng = [x for x in subterms(lev.data["iter"]) if x.op == "call" and x.args[0] is glob("builtins.range") and len(x.args[1]) == 2]
+    ctx.require(len({x.uid for x in rng}) == 1, "construct not modelled: the free coordinate does not range over range(lo, hi)")
+    hi = rng[0].args[1][1]
+    r_term = A2.spec("hi - 1", {"hi": hi})
+    r_rat = A2.C._as_rat(A2.C.canon(r_term))
+    params = [ra.params[n] for n in ctx.prog.functions[ra.func].params()[1:]]
+    ctx.require(len(params) == 2 and len(c.data["args"]) == 2, "construct not modelled: the lattice recursion does not take (index, budget)")
+    sub = {A2.C.canon(p_): A2.C._as_rat(A2.C.canon(a_)) for p_, a_ in zip(params, c.data["args"])}
+    r_next = rat_subst(r_rat, sub)
+    absv = A2.C._as_rat(A2.C.canon(A2.spec("abs(v)", {"v": cur, "abs": glob("builtins.abs")})))
+    ok = A2.eq(arg(c, 0), A2.spec("i + 1", {"i": params[0]})) and r_next.equals(r_rat - absv)
+    ctx.ob("R09.4", ra.func, c.node, ok, "the recursion continues with index + 1 and a remaining budget reduced by |current value|"
+           if ok else "the remaining L1 budget of the next coordinate is not (this budget - |current value|): lattice points can exceed "
+           "the L1 bound n_units, i.e. grid vectors with L1 norm above grid_limit", construct="L1 budget recursion")
+    # the top-level call starts with the whole budget n_units
+    Ab = Analysis(ctx, max_depth=1, inline=lambda f_, d_: False)
+    rb = Ab.run(GG + ".build_integer_grid", cls_ctx=GG)
+    top = [x for x in rb.events if x.kind == "call" and x.data["fterm"].op in ("boundmethod", "attr") and str(x.data["fterm"].args[1]).endswith("accumulate_integer_grid")]
+    okt = len(top) == 1 and len(top[0].data["args"]) == 2
+    if okt:
+        sub0 = {A2.C.canon(p_): Ab.C._as_rat(Ab.C.canon(a_)) for p_, a_ in zip(params, top[0].data["args"])}
+        # attributes of self read by r: their values at the call
+        for atom in list(r_rat.num.atoms() | r_rat.den.atoms()):
+            if atom.op == "attr" and atom.args[0] is ra.self_term:
+                sub0[atom] = Ab.C._as_rat(Ab.C.canon(Ab.at(top[0], "self." + atom.args[1])))
+        r0 = rat_subst(r_rat, sub0)
+        okt = r0.equals(Ab.C._as_rat(Ab.C.canon(rb.params["n_units"]))) and top[0].data["args"][0] is const(0)
+    ctx.ob("R09.4", rb.func, top[0].node if top else None, okt, "the recursion starts at coordinate 0 with the whole budget n_units",
+           construct="L1 budget start")
     apps = [x for x in ra.events if x.kind == "call" and x.data["fterm"].op == "attr" and x.data["fterm"].args[1] == "append"
             and x.func == ra.func]
     rets = [x for x in ra.events if x.kind == "return" and x.func == ra.func and not x.data.get("bare", False) is False]
     early = [x for x in ra.events if x.kind == "return" and x.func == ra.func]
-    base = A2.C.canon(A2.entry(ra, "index == self.dim"))
+    base = A2.C.canon(A2.entry(ra, "i == self.dim", {"i": params[0]}))
     okb = len(apps) == 1 and [A2.C.canon(c) for c in apps[0].pc] == [base] and A2.eq(arg(apps[0], 0), A2.entry(ra, "self.entry.copy()")) \
         and not early and len(rec) == 1 and [A2.C.canon(c) for c in rec[0].pc if c.op != "inloop"] == [A2.C._not(base)]
     if apps:
@@ -250,7 +278,7 @@ def _generator(ctx):
            "set (index == dim), and otherwise every admissible value of the current coordinate is recursed into - no "
            "shortcut exits", construct="lattice recursion structure")
     vals = A2.C.canon(lev.data["iter"])
-    free = A2.C.canon(A2.entry(ra, "range(-max_val if self.neg_allowed[index] else 0, max_val + 1)"))
+    free = A2.C.canon(A2.entry(ra, "range(-r if self.neg_allowed[i] else 0, r + 1)", {"r": r_term, "i": params[0]}))
     ok = contains(vals, lambda s: s is free)
     ctx.ob("R09.4", ra.func, lev.node, ok, "a free coordinate ranges over [-max_val (if negatives are allowed) or 0, max_val]",
            construct="coordinate range")
